@@ -3,8 +3,9 @@
 set -e
 cd "$(dirname "$0")"
 export GOFLAGS=-mod=mod GOPROXY=off GOSUMDB=off GOTOOLCHAIN=local
-(cd lean && lake build AferoVerif driver)
 mkdir -p .build evidence replays
 cp /repo/go.sum harness/go.sum
+(cd harness && go run ./cmd/facts /repo ../lean/AferoVerif/Generated/Facts.lean)
+(cd lean && lake build AferoVerif driver)
 (cd harness && go build -o ../.build/h ./cmd/h)
 echo setup-ok
